@@ -2,6 +2,7 @@ package harness
 
 import (
 	"bytes"
+	"encoding/binary"
 	"fmt"
 	"io"
 
@@ -116,7 +117,18 @@ func (c05) Exec(x *Exec, ci interface{}) *Verdict {
 		vd.V = Mismatch("bgzf-framing", "bam.Writer output is not valid BGZF: %v", err)
 		return vd
 	}
-	want := c.Hdr.EncodeBAMHeader()
+	// the header text may list the tags of a line in another order than the
+	// specification of the case does: compared in canonical form, and the
+	// encoder is then given the text as written
+	text := c.Hdr.Text()
+	if len(flat.Data) >= 8 && string(flat.Data[:4]) == "BAM\x01" {
+		if n := int(binary.LittleEndian.Uint32(flat.Data[4:])); n >= 0 && 8+n <= len(flat.Data) {
+			if written := string(flat.Data[8 : 8+n]); NormHeaderText(written) == NormHeaderText(text) {
+				text = written
+			}
+		}
+	}
+	want := c.Hdr.EncodeBAMHeaderText(text)
 	var recOff []int // offset of each record in the uncompressed stream
 	for i := range c.Recs {
 		recOff = append(recOff, len(want))
@@ -151,7 +163,7 @@ func (c05) Exec(x *Exec, ci interface{}) *Verdict {
 		br.Omit(c.Omit)
 		h := br.Header()
 		ht, _ := h.MarshalText()
-		if string(ht) != c.Hdr.Text() {
+		if NormHeaderText(string(ht)) != NormHeaderText(c.Hdr.Text()) {
 			bad = Mismatch("header-text", "header read back as %q, written %q", ht, c.Hdr.Text())
 			return
 		}
